@@ -60,6 +60,8 @@ enum Act {
     SetTrusted(u8),
     RemoveTrusted(u8),
     Deliver(Kind, Dev),
+    /// two deviations at once (thorough tier, from states reached by trust changes only)
+    Deliver2(Kind, Dev, Dev),
     Advance(u32),
 }
 
@@ -124,10 +126,36 @@ impl C04 {
 
     /// (payload delivered, origin chain named in it, applicable?)
     fn build(&self, ctx: &Ctx, k: Kind, d: Dev) -> Option<(Vec<u8>, String)> {
+        self.build_n(ctx, k, &[d])
+    }
+
+    /// class of a deviation: two deviations of the same class do not compose
+    fn class(d: Dev) -> u8 {
+        match d {
+            Dev::None => 0,
+            Dev::NeverApproved | Dev::ApprovedOtherPayload | Dev::ApprovedOtherId | Dev::ApprovedOtherSourceAddress | Dev::ApprovedOtherDest => 1,
+            Dev::SourceChainNotHub | Dev::SourceAddressNotHub => 2,
+            Dev::OuterSendToHub | Dev::OuterType(_) => 3,
+            Dev::InnerType(_) => 4,
+            Dev::OriginNeverTrusted | Dev::OriginY => 5,
+            Dev::UnknownToken | Dev::TakenId => 6,
+            Dev::GarbageAddress(_) => 7,
+            Dev::Amount(_) | Dev::OverCustody => 8,
+            Dev::TruncateAtWord(_) | Dev::Trailing(_) | Dev::InnerTrailing(_) => 9,
+            Dev::EmptyName => 10,
+            Dev::EmptySymbol => 11,
+        }
+    }
+
+    fn build_n(&self, ctx: &Ctx, k: Kind, devs: &[Dev]) -> Option<(Vec<u8>, String)> {
         let iw = &ctx.iw;
         let mut msg = self.base_msg(ctx, k);
         let mut origin = X.to_string();
         let is_transfer = matches!(k, Kind::TransferNative | Kind::TransferCanonical | Kind::TransferWithData);
+        if devs.len() == 2 && (Self::class(devs[0]) == Self::class(devs[1]) || devs[0] == Dev::None || devs[1] == Dev::None) {
+            return None;
+        }
+        for d in devs.iter().cloned() {
         match d {
             Dev::OriginNeverTrusted => origin = "polygon".into(),
             Dev::OriginY => origin = Y.into(),
@@ -168,12 +196,14 @@ impl C04 {
             Dev::Amount(_) => { if !is_transfer { return None; } }
             _ => {}
         }
-        let hub = if d == Dev::OuterSendToHub {
+        }
+        let hub = if devs.contains(&Dev::OuterSendToHub) {
             RHub::SendToHub { chain: origin.as_bytes().to_vec(), msg: msg.clone() }
         } else {
             RHub::ReceiveFromHub { chain: origin.as_bytes().to_vec(), msg: msg.clone() }
         };
         let mut p = abi_hub(&hub);
+        for d in devs.iter().cloned() {
         if let Dev::InnerTrailing(t) = d {
             let mut inner = abi_msg(&msg);
             match t {
@@ -184,8 +214,10 @@ impl C04 {
             p = abi_params(&[Tok::Word(word_u128(4)), Tok::Dyn(origin.as_bytes().to_vec()), Tok::Dyn(inner)]);
         }
         // locate the inner message: third head word is the offset of `bytes message`
+        if p.len() < 96 { continue; }
         let off = u64::from_be_bytes(p[88..96].try_into().unwrap()) as usize;
         let inner = off + 32;
+        if inner + 160 > p.len() && matches!(d, Dev::InnerType(_) | Dev::Amount(_)) { return None; }
         match d {
             Dev::OuterType(t) => p[0..32].copy_from_slice(&word_u128(t as u128)),
             Dev::InnerType(t) => p[inner..inner + 32].copy_from_slice(&word_u128(t as u128)),
@@ -201,6 +233,7 @@ impl C04 {
                 _ => p.extend([0xabu8; 32]),
             },
             _ => {}
+        }
         }
         Some((p, origin))
     }
@@ -296,6 +329,23 @@ impl Scenario for C04 {
                 }
             }
         }
+        // every pair of deviations of different classes (thorough), from the states that only
+        // trust changes and time have touched
+        if self.thorough && m.executed.is_empty() && !m.d1_deployed {
+            let devs = self.devs();
+            for k in [Kind::TransferNative, Kind::TransferCanonical, Kind::DeployWithMinter] {
+                for (i, d1) in devs.iter().enumerate() {
+                    for d2 in devs.iter().skip(i + 1) {
+                        if matches!(d1, Dev::TruncateAtWord(x) if *x > 3 && *x % 4 != 0) || matches!(d2, Dev::TruncateAtWord(x) if *x > 3 && *x % 4 != 0) {
+                            continue;
+                        }
+                        if self.build_n(ctx, k, &[*d1, *d2]).is_some() {
+                            v.push(Act::Deliver2(k, *d1, *d2));
+                        }
+                    }
+                }
+            }
+        }
         v
     }
 
@@ -320,39 +370,50 @@ impl Scenario for C04 {
                 out.expect(c.ok == want, "trust.outcome", || format!("{:?}: ok={} model {}", a, c.ok, want));
                 if c.ok { m.trusted[*i as usize] = set; }
             }
-            Act::Deliver(k, d) => {
-                out.kind = if *d == Dev::None { "deliver-conforming" } else { "deliver-deviating" };
-                let (payload, origin) = self.build(ctx, *k, *d).unwrap();
-                let id = format!("{:?}-{:?}", k, d);
+            Act::Deliver(..) | Act::Deliver2(..) => {
+                let (k, devs): (&Kind, Vec<Dev>) = match a {
+                    Act::Deliver(k, d) => (k, vec![*d]),
+                    Act::Deliver2(k, d1, d2) => (k, vec![*d1, *d2]),
+                    _ => unreachable!(),
+                };
+                let has = |x: Dev| devs.contains(&x);
+                out.kind = if devs == vec![Dev::None] { "deliver-conforming" } else { "deliver-deviating" };
+                let (payload, origin) = self.build_n(ctx, *k, &devs).unwrap();
+                let id = format!("{:?}-{:?}", k, devs);
                 let pre = w.snap();
                 // what the gateway approves
-                let (a_chain, a_id, a_src, a_dest, a_payload): (&str, String, &str, &Address, Vec<u8>) = match d {
-                    Dev::ApprovedOtherPayload => { let mut p = payload.clone(); let n = p.len(); p[n - 1] ^= 1; (HUB_CHAIN, id.clone(), HUB_ADDRESS, &iw.its, p) }
-                    Dev::ApprovedOtherId => (HUB_CHAIN, format!("{}-other", id), HUB_ADDRESS, &iw.its, payload.clone()),
-                    Dev::ApprovedOtherSourceAddress => (HUB_CHAIN, id.clone(), "another-hub-address", &iw.its, payload.clone()),
-                    Dev::ApprovedOtherDest => (HUB_CHAIN, id.clone(), HUB_ADDRESS, &iw.gas, payload.clone()),
-                    Dev::SourceChainNotHub => (X, id.clone(), HUB_ADDRESS, &iw.its, payload.clone()),
-                    Dev::SourceAddressNotHub => (HUB_CHAIN, id.clone(), "not-the-hub", &iw.its, payload.clone()),
-                    _ => (HUB_CHAIN, id.clone(), HUB_ADDRESS, &iw.its, payload.clone()),
-                };
-                let approved = *d != Dev::NeverApproved;
+                // what is delivered
+                let x_chain: &str = if has(Dev::SourceChainNotHub) { X } else { HUB_CHAIN };
+                let x_src: &str = if has(Dev::SourceAddressNotHub) { "not-the-hub" } else { HUB_ADDRESS };
+                // what the gateway approves: the delivery itself, unless an approval deviation applies
+                let mut a_payload = payload.clone();
+                let mut a_id = id.clone();
+                let mut a_src: &str = x_src;
+                let mut a_dest: &Address = &iw.its;
+                let a_chain: &str = x_chain;
+                if has(Dev::ApprovedOtherPayload) {
+                    let n = a_payload.len();
+                    if n == 0 { a_payload.push(1) } else { a_payload[n - 1] ^= 1 }
+                }
+                if has(Dev::ApprovedOtherId) { a_id = format!("{}-other", id); }
+                if has(Dev::ApprovedOtherSourceAddress) { a_src = "another-hub-address"; }
+                if has(Dev::ApprovedOtherDest) { a_dest = &iw.gas; }
+                let approved = !has(Dev::NeverApproved);
                 if approved {
                     let c = iw.approve_delivery(a_chain, &a_id, a_src, a_dest, &a_payload);
                     assert!(c.ok, "harness approval failed: {}", c.err);
                 }
-                // what is delivered
-                let (x_chain, x_src): (&str, &str) = match d {
-                    Dev::SourceChainNotHub => (X, HUB_ADDRESS),
-                    Dev::SourceAddressNotHub => (HUB_CHAIN, "not-the-hub"),
-                    _ => (HUB_CHAIN, HUB_ADDRESS),
-                };
                 let h_before = w.state_hash();
                 let call = iw.execute(&iw.its, x_chain, &id, x_src, &payload);
                 out.accepted = call.ok;
 
                 // model: is this a conforming, effective delivery right now?
                 let origin_trusted = match origin.as_str() { X => m.trusted[0], Y => m.trusted[1], _ => false };
-                let conforming_shape = matches!(d, Dev::None | Dev::OriginY);
+                let benign = |x: &Dev| matches!(x, Dev::None | Dev::OriginY);
+                let conforming_shape = devs.iter().all(benign);
+                // what is wrong with the delivery, for the violation signature
+                let wrong: Vec<String> = devs.iter().filter(|x| !benign(x)).map(strip).collect();
+                let wrong = if wrong.is_empty() { "None".to_string() } else { wrong.join("+") };
                 let fresh = !m.executed.contains(&id);
                 let precond = match k {
                     Kind::Deploy | Kind::DeployWithMinter => !m.d1_deployed,
@@ -363,14 +424,14 @@ impl Scenario for C04 {
                 let mut effective = want;
                 if call.ok != want {
                     let sig = if call.ok {
-                        format!("execute.accepted-nonconforming:{}", strip(d))
+                        format!("execute.accepted-nonconforming:{}", wrong)
                     } else {
-                        format!("execute.rejected-conforming:{}", strip(d))
+                        format!("execute.rejected-conforming:{}", wrong)
                     };
                     // the single known defect: the hub *address* is never compared. The model
                     // follows the implementation there (a delivery that conforms in every other
                     // respect takes effect), so that exploration continues past it.
-                    if call.ok && *d == Dev::SourceAddressNotHub && origin_trusted && fresh && precond {
+                    if call.ok && wrong == "SourceAddressNotHub" && origin_trusted && fresh && precond {
                         out.adopted = true;
                         effective = true;
                     }
@@ -494,7 +555,7 @@ fn main() {
         let thorough = tier == "thorough";
         let mut o = Opts::new(tier, if thorough { 4 } else { 2 });
         o.min_depth = 2;
-        o.rule = "histories over {set/remove trusted chain X, Y} and deliveries; a delivery = one of 5 conforming messages (transfer to service-deployed token, to canonical token, with data to an app, remote deploy without/with minter) with ONE deviation from {none, never approved, approved with other payload / id / source address / destination contract, source chain not the hub, source address not the hub address, SendToHub wrapper, outer type 0/1/2/5/255, inner type 2/3/4/5/255, origin never trusted, origin Y (trusted only after set), unknown token, 3 kinds of undecodable recipient/minter bytes, amount words 2^127, 2^128, 2^128+1000, 2^184+7, 2^192+5, 2^255, ff..ff, truncation at every 32-byte word, 3 kinds of trailing bytes on the payload and on the inner message, over-custody amount, taken token id, empty name, empty symbol}; delivering the same message twice arises as a path; payloads come from the independent ABI encoder".into();
+        o.rule = "histories over {set/remove trusted chain X, Y} and deliveries; a delivery = one of 5 conforming messages (transfer to service-deployed token, to canonical token, with data to an app, remote deploy without/with minter) with ONE deviation from {none, never approved, approved with other payload / id / source address / destination contract, source chain not the hub, source address not the hub address, SendToHub wrapper, outer type 0/1/2/5/255, inner type 2/3/4/5/255, origin never trusted, origin Y (trusted only after set), unknown token, 3 kinds of undecodable recipient/minter bytes, amount words 2^127, 2^128, 2^128+1000, 2^184+7, 2^192+5, 2^255, ff..ff, truncation at every 32-byte word, 3 kinds of trailing bytes on the payload and on the inner message, over-custody amount, taken token id, empty name, empty symbol}; delivering the same message twice arises as a path; thorough: every PAIR of deviations of different classes from the states reached by trust changes; payloads come from the independent ABI encoder".into();
         (C04 { thorough }, o)
     });
 }
